@@ -8,11 +8,40 @@ TRUST = ('TLC 1.8 / SANY / CommunityModules; the harness (lexical parsing of res
          'cross-checked against CBC); PuLP LpProblem object model; bounds of the families stated in the evidence file')
 
 CHECKS = {
+ 'C01': dict(cat='model_checking', sec='6 C01',
+   text='TLC constructs every instance file and option set of bounded families (MC_Solver.tla), proves on them that the IP model projects exactly onto the valid matchings (all 0/1 points) and that every reported result is valid; every exported behaviour is replayed: the admissible set of the REAL LpProblem is enumerated exactly at each solve and every optimal point the back end may return is forced through the reporting code and compared with the valid matchings of the specification. Exhaustive within the small families, sampled (tlc -simulate) in the wide ones.',
+   tech='TLC model checking of MC_Solver families + exact enumeration of the real integer program + adversarial stand-in solver replay'),
+ 'C02': dict(cat='model_checking', sec='6 C02',
+   text='Same machinery; status Optimal iff the specification admits a matching, emptiness of the real problem at every solve vs the specification, no exception from Solver/solve/getters, for criteria lists of length 0-9 built by TLC with all argument variants; objective-variable bounds and names are also model-checked (ObjBoundsAdmit, NamesUnique).',
+   tech='TLC model checking + replay with exact IP enumeration at every solve'),
+ 'C03': dict(cat='model_checking', sec='6 C03',
+   text='For each of the nine criteria with every admissible argument variant TLC computes the declarative optimum over all admissible matchings; the optimum of the real problem at every solve, and every returnable final point, must agree.',
+   tech='TLC model checking + replay with exact IP enumeration'),
+ 'C04': dict(cat='model_checking', sec='6 C04',
+   text='LexOptimal/FrozenHolds model-checked (freeze pipeline = declarative lexicographic optimum); ordered lists of 2-9 criteria with permuted flags and gaps replayed: optimum at every solve and every returnable final point must be the specified lexicographic optimum.',
+   tech='TLC model checking + replay with exact IP enumeration'),
+ 'C05': dict(cat='model_checking', sec='6 C05',
+   text='IP-level model of the alpha/beta/gamma constraints proved equal to {valid and stable} on all 0/1 points (TLC); admissible set of the real stability IP must EQUAL the stable matchings of the specification on every two-sided family instance (set equality), incl. ties, shared lecturers, zero capacities.',
+   tech='TLC model checking (StabIP) + exact projection of the real IP compared by set equality'),
+ 'C06': dict(cat='model_checking', sec='6 C06',
+   text='Checker loop modelled in TLA+ and proved equal to the SPA-STL definition on every upper-quota-respecting assignment (TLC); real Model.check_stability called on every such assignment of every exported instance.',
+   tech='TLC model checking (CheckerEqDef) + exhaustive replay of assignments into Model.check_stability'),
+ 'C07': dict(cat='model_checking', sec='6 C07',
+   text='Brute-force fold modelled in product order with its accumulators and proved equal to the declarative optimum of all nine printed statistics (TLC); real -bf runs compared line by line.',
+   tech='TLC model checking (BFEqDef) + replay of -bf runs'),
+ 'C10': dict(cat='model_checking', sec='6 C10',
+   text='TLC renders every family file character by character (three whitespace styles, with/without parameter block, 2/3-agent, lists used/ignored), proves ParseFile(Render(fc)) = Denote(fc), and the loaded Model is compared field by field with the denoted instance.',
+   tech='TLC model checking (ReadRender) + replay of rendered bytes into Solver'),
+ 'C11': dict(cat='model_checking', sec='6 C11',
+   text='With no criterion every valid matching is optimal; the stand-in returns each in turn and every field and listing of the short and long result text is compared with the statistics defined in MPDefs.tla.',
+   tech='TLC-computed reports + replay through get_results_short/long for every valid matching'),
  'C13': dict(cat='model_checking', sec='6 C13',
    text='TLA+ writer/reader tie automata model-checked exhaustively (all lists up to length 10/12, all 2^n indicator vectors); every TLC behaviour replayed into create_string_pref, the reader and Solver file loading (2/3-agent, first/second side). Exhaustive for the stated n.',
    tech='TLC exhaustive model checking of MC_Ties.tla + replay of all exported behaviours into the implementation'),
+ 'C16': dict(cat='model_checking', sec='6 C16',
+   text='Slot placement/compaction modelled and proved to refine the declarative order/refusal rule (MC_Options.tla, positions around 1..9, extras, flag order); every command line replayed into Solver(argv) with a missing file (refusal before reading) and on a real instance (parsed order, reported order); order of solves checked semantically on MC_Solver families with permuted flags and gaps.',
+   tech='TLC model checking of MC_Options/MC_Solver + replay into Solver(argv)'),
 }
-
 def main():
     checks, na = [], []
     for i in ids:
